@@ -248,6 +248,24 @@ type Loc struct {
 	Hits   int64
 }
 
+// ---- T13: the key is the field named ID, stored under another column name, no primaryKey tag ----
+type Uid struct {
+	ID   uint   `gorm:"column:uid"`
+	Mark string `gorm:"uniqueIndex"`
+	V    string
+}
+
+// ---- T14: pointer-typed tracked times, left nil by the caller ----
+type PTimes struct {
+	ID        uint   `gorm:"primaryKey"`
+	Mark      string `gorm:"uniqueIndex"`
+	CreatedAt *time.Time
+	UpdatedAt *time.Time
+	Seen      *time.Time `gorm:"autoCreateTime"`
+	Touched   *time.Time `gorm:"autoUpdateTime"`
+	N         int64
+}
+
 // ---- T11: the same struct embedded twice with different prefixes, inner `column:` rename ----
 type Addr struct {
 	City string
@@ -271,7 +289,7 @@ var registry = []struct {
 	{"Ints", reflect.TypeOf(Ints{})}, {"Scalars", reflect.TypeOf(Scalars{})}, {"Nulls", reflect.TypeOf(Nulls{})},
 	{"Sers", reflect.TypeOf(Sers{})}, {"Embs", reflect.TypeOf(Embs{})}, {"Defs", reflect.TypeOf(Defs{})},
 	{"Comp", reflect.TypeOf(Comp{})}, {"Keyed", reflect.TypeOf(Keyed{})}, {"StrKey", reflect.TypeOf(StrKey{})},
-	{"UnixU", reflect.TypeOf(UnixU{})}, {"Twice", reflect.TypeOf(Twice{})}, {"Loc", reflect.TypeOf(Loc{})},
+	{"UnixU", reflect.TypeOf(UnixU{})}, {"Twice", reflect.TypeOf(Twice{})}, {"Loc", reflect.TypeOf(Loc{})}, {"Uid", reflect.TypeOf(Uid{})}, {"PTimes", reflect.TypeOf(PTimes{})},
 }
 
 func typeByName(n string) reflect.Type {
